@@ -678,6 +678,7 @@ func liqDrive(t *testing.T, mode string) {
 	only := envInt("VERIF_CASE", -1)
 	c04 := mode == "C04" || mode == "C06" // pool-heavy workloads
 	c06 := mode == "C06"
+	hunt := mode == "C05F"
 
 	for ci := 0; ci < ncases; ci++ {
 		caseSeed := r.next()
@@ -704,6 +705,9 @@ func liqDrive(t *testing.T, mode string) {
 			params.MaxOrderLifespan = 24 * time.Hour
 			params.MaxNumMarketMakingOrderTicks = uint64(g.pickI(2, 3, 10, 10))
 			params.MaxNumActivePoolsPerPair = uint64(g.pickI(2, 3, 20))
+			if hunt {
+				params.MaxNumActivePoolsPerPair = 20
+			}
 			w.k.SetGenericParams(w.ctx, params)
 			if c06 {
 				params.WithdrawFeeRate = []sdk.Dec{sdk.ZeroDec(), sdk.NewDecWithPrec(3, 3), sdk.NewDecWithPrec(5, 1)}[g.intn(3)]
@@ -745,6 +749,11 @@ func liqDrive(t *testing.T, mode string) {
 		for _, app := range w.apps {
 			for _, p := range w.pairs[app] {
 				w.refP[fmt.Sprintf("%d:%d", app, p.Id)] = liqDec([]int64{1000000000000000000, 500000000000000000, 2345000000000000000, 12000000000000000}[g.intn(4)])
+				if hunt {
+					// low prices: a pool order of a few thousand base coins is worth a few quote units, so that a pro-rata
+					// share of it can be worth nothing (the class of C05-F1)
+					w.refP[fmt.Sprintf("%d:%d", app, p.Id)] = liqDec([]int64{1000000000000000, 1200000000000000, 500000000000000, 2000000000000000, 10000000000000000}[g.intn(5)])
+				}
 			}
 		}
 		// --- pools on some pairs
@@ -754,6 +763,20 @@ func liqDrive(t *testing.T, mode string) {
 				poolPct := map[bool]int{true: 85, false: 40}[c04]
 				if mode == "C05" {
 					poolPct = 15 // a pool puts hundreds of orders on the book; the keeper-level C05 replay is about user orders
+				}
+				if hunt {
+					// a basic pool and two ranged pools at the minimum size; the creator then withdraws most of the shares,
+					// so that the pools' orders on a tick are of the size 1/price .. 3/price
+					y := sdk.NewInt(1000000).ToLegacyDec().Quo(ref).Ceil().TruncateInt().MulRaw(int64(1 + g.intn(3)))
+					w.opCreatePool(app, 90, p.Id, ref.MulInt(y).TruncateInt(), y)
+					for k := 0; k < 2; k++ {
+						yr := sdk.NewInt(int64(1000000 + g.intn(4000000)))
+						prec := 4
+						lo := amm.PriceToDownTick(ref.Mul(sdk.NewDecWithPrec(8, 1)), prec)
+						hi := amm.PriceToDownTick(ref.Mul(sdk.NewDecWithPrec(13, 1)), prec)
+						w.opCreateRanged(app, 90, p.Id, ref.MulInt(yr).TruncateInt().AddRaw(1), yr, lo, hi, amm.PriceToDownTick(ref, prec))
+					}
+					continue
 				}
 				if g.chance(poolPct) {
 					y := sdk.NewInt(int64(1000000 + g.intn(50000000)))
@@ -784,6 +807,27 @@ func liqDrive(t *testing.T, mode string) {
 				w.now = w.now.Add(10 * time.Second)
 				w.opBegin()
 			}
+		}
+		if hunt {
+			for _, app := range w.apps {
+				for _, pl := range w.k.GetAllPools(w.ctx, app) {
+					pr, _ := w.k.GetPair(w.ctx, app, pl.PairId)
+					_, ry := w.k.GetPoolBalances(w.ctx, pl)
+					unit := sdk.OneDec().Quo(w.refP[fmt.Sprintf("%d:%d", app, pr.Id)]).TruncateInt()
+					target := unit.MulRaw(int64(1500 + g.intn(4000)))
+					if pl.Type == liqtypes.PoolTypeRanged {
+						target = unit.MulRaw(int64(150 + g.intn(600)))
+					}
+					ps := w.k.GetPoolCoinSupply(w.ctx, pl)
+					if target.LT(ry.Amount) {
+						keep := ps.Mul(target).Quo(ry.Amount)
+						w.opWithdraw(app, 90, pl.Id, liqPC(app, pl.Id, ps.Sub(keep)))
+					}
+				}
+			}
+			w.opEnd()
+			w.now = w.now.Add(10 * time.Second)
+			w.opBegin()
 		}
 		if c06 {
 			// warm-up: liquidity providers deposit into every pool, so that they hold pool coins of several apps
@@ -821,6 +865,9 @@ func liqDrive(t *testing.T, mode string) {
 			}
 			if w.life != nil {
 				w.lifeStep(g)
+			}
+			if hunt && b >= 1 && w.huntStep(g) {
+				nops = 0
 			}
 			for i := 0; i < nops; i++ {
 				w.genOp(g, c04)
